@@ -108,7 +108,7 @@ class Tree_invalidate_hash(Contract):
 
     def inputs(self, cx, case):
         setup(cx)
-        return {"self": node(cx, "self", case)}
+        return {"self": node(cx, "self", case), "update_size": True}
 
     # call-site direction: clears the cache, recomputes the size, and does the same for every ancestor
     def effects(self, cx, a):
